@@ -84,6 +84,12 @@ OP(op_cpp_isap128a) { cpp_op(c, out, ol, 3, 0, 16); }
 OP(op_masked80pq_shared_reject) { out[0] = (uint8_t)ascon80pq_masked_aead_decrypt(out + 1, ol, IN.msg, 40, IN.ad, 3, IN.nonce, &c->sh->mk160); *ol = 25; }
 OP(op_masked128_shared_reject) { out[0] = (uint8_t)ascon128_masked_aead_decrypt(out + 1, ol, IN.msg, 33, 0, 0, IN.nonce, &c->sh->mk128); *ol = 18; }
 OP(op_isap128a_shared_reject) { out[0] = (uint8_t)ascon128a_isap_aead_decrypt(out + 1, ol, IN.msg, 29, IN.ad, 5, IN.nonce, &c->sh->isap128a); *ol = 14; }
+/* outputs placed flush against the end of the thread's private block: the per-thread blocks are adjacent in memory (threads decrypting into consecutive slices of one array),
+ * so a library access that strays past an output buffer, even one that writes back what it read, lands in the neighbouring thread's block */
+OP(op_aead128_reject_at_block_end) { uint8_t *pt = (uint8_t *)c + sizeof(tctx) - 13; size_t l = 0; out[0] = (uint8_t)ascon128_aead_decrypt(pt, &l, IN.msg, 13 + 16, IN.ad, 3, IN.nonce, IN.key); memcpy(out + 1, pt, 13); *ol = 14; }
+OP(op_aead128a_roundtrip_at_block_end) { uint8_t ct[64]; size_t cl = 0, l = 0; uint8_t *pt = (uint8_t *)c + sizeof(tctx) - 21; ascon128a_aead_encrypt(ct, &cl, IN.msg, 21, IN.ad, 4, IN.nonce, IN.key); out[0] = (uint8_t)ascon128a_aead_decrypt(pt, &l, ct, cl, IN.ad, 4, IN.nonce, IN.key); memcpy(out + 1, pt, 21); *ol = 22; }
+OP(op_siv80pq_reject_at_block_end) { uint8_t *pt = (uint8_t *)c + sizeof(tctx) - 11; size_t l = 0; out[0] = (uint8_t)ascon80pq_siv_decrypt(pt, &l, IN.msg, 11 + 16, 0, 0, IN.nonce, IN.key); memcpy(out + 1, pt, 11); *ol = 12; }
+OP(op_hash_xof_at_block_end) { uint8_t *o2 = (uint8_t *)c + sizeof(tctx) - 37; ascon_xof_state_t x; ascon_xof_init(&x); ascon_xof_absorb(&x, IN.msg, 30); ascon_xof_squeeze(&x, o2, 37); ascon_xof_free(&x); memcpy(out, o2, 37); ascon_prf(o2 + 8, 29, IN.msg, 9, IN.key); memcpy(out + 37, o2 + 8, 29); *ol = 66; }
 
 typedef struct { const char *name; opfn fn; } opdesc;
 static const opdesc OPS[] = {
@@ -94,6 +100,7 @@ static const opdesc OPS[] = {
     {"prf", op_prf}, {"mac+verify+prfshort", op_mac}, {"hmac+hmaca", op_hmac}, {"kmac+kmaca", op_kmac}, {"kdf+kdfa", op_kdf}, {"hkdf+hkdfa", op_hkdf}, {"pbkdf2", op_pbkdf2}, {"hex", op_hex}, {"random", op_random},
     {"permutation-api", op_permutation}, {"nonce-helpers", op_nonce_helpers}, {"cpp-aead128a", op_cpp_aead128a}, {"cpp-masked80pq", op_cpp_masked80pq}, {"cpp-siv128", op_cpp_siv128}, {"cpp-isap128a", op_cpp_isap128a},
     {"masked80pq-shared-key-rejecting-decrypt", op_masked80pq_shared_reject}, {"masked128-shared-key-rejecting-decrypt", op_masked128_shared_reject}, {"isap128a-shared-key-rejecting-decrypt", op_isap128a_shared_reject},
+    {"aead128-rejecting-decrypt-at-block-end", op_aead128_reject_at_block_end}, {"aead128a-roundtrip-at-block-end", op_aead128a_roundtrip_at_block_end}, {"siv80pq-rejecting-decrypt-at-block-end", op_siv80pq_reject_at_block_end}, {"xof+prf-output-at-block-end", op_hash_xof_at_block_end},
 };
 #define NOPS ((int)(sizeof OPS / sizeof OPS[0]))
 
